@@ -1,12 +1,12 @@
 SPECIFICATION CSpec
 CONSTANTS NAcc = 1
           NSlot = 1
-          MaxVal = 1
-          MaxDiffs = {1, 2}
+          MaxVal = 2
+          MaxDiffs = {1}
           HistLimits = {0, 1}
           Policies = {"any"}
           Asyncs = {FALSE}
-          MaxId = 3
+          MaxId = 2
 INVARIANTS TypeOK Reopens Consistent SyncedCoversPersisted
 PROPERTIES RecoverRestores RecoverFailKeeps
 CONSTRAINT Bounded
